@@ -522,4 +522,1340 @@ theorem escapeRoundTrip : EscapeRoundTrip := by
   have := unescape_escape m hm s
   simp [Net.unescape, this.1, this.2]
 
+/-! ## byte-string helpers -/
+
+theorem hasSuffix_iff (s p : Bytes) : hasSuffix s p = true ↔ ∃ a, s = a ++ p := by
+  unfold hasSuffix
+  rw [List.isSuffixOf_iff_suffix]
+  constructor
+  · rintro ⟨a, h⟩; exact ⟨a, h.symm⟩
+  · rintro ⟨a, h⟩; exact ⟨a, h.symm⟩
+
+theorem hasSuffix_append (a s : Bytes) : hasSuffix (a ++ s) s = true := (hasSuffix_iff _ _).2 ⟨a, rfl⟩
+
+theorem trimSuffix_append (a s : Bytes) : trimSuffix (a ++ s) s = a := by
+  unfold trimSuffix
+  rw [hasSuffix_append]
+  simp
+
+theorem trimSuffix_of_not (s p : Bytes) (h : hasSuffix s p = false) : trimSuffix s p = s := by
+  unfold trimSuffix; simp [h]
+
+theorem trimSuffix_cases (s p : Bytes) :
+    (hasSuffix s p = true ∧ s = trimSuffix s p ++ p) ∨ (hasSuffix s p = false ∧ trimSuffix s p = s) := by
+  cases h : hasSuffix s p with
+  | true =>
+    left
+    obtain ⟨a, e⟩ := (hasSuffix_iff _ _).1 h
+    subst e
+    rw [trimSuffix_append]; exact ⟨rfl, rfl⟩
+  | false => right; exact ⟨rfl, trimSuffix_of_not s p h⟩
+
+theorem hasPrefix_iff (s p : Bytes) : hasPrefix s p = true ↔ ∃ a, s = p ++ a := by
+  unfold hasPrefix
+  rw [List.isPrefixOf_iff_prefix]
+  constructor
+  · rintro ⟨a, h⟩; exact ⟨a, h.symm⟩
+  · rintro ⟨a, h⟩; exact ⟨a, h.symm⟩
+
+theorem indexByte_eq_none (s : Bytes) (c : UInt8) (h : c ∉ s) : indexByte s c = none := by
+  unfold indexByte
+  have : s.findIdx (· == c) = s.length := by
+    rw [List.findIdx_eq_length]
+    intro x hx
+    rw [beq_eq_false_iff_ne]
+    intro e; subst e; exact h hx
+  simp [this]
+
+theorem indexByte_append (a b : Bytes) (c : UInt8) (h : c ∉ a) : indexByte (a ++ c :: b) c = some a.length := by
+  unfold indexByte
+  have : (a ++ c :: b).findIdx (· == c) = a.length := by
+    rw [List.findIdx_append]
+    have : a.findIdx (· == c) = a.length := by
+      rw [List.findIdx_eq_length]
+      intro x hx
+      rw [beq_eq_false_iff_ne]
+      intro e; subst e; exact h hx
+    simp [this, List.findIdx_cons]
+  simp [this]
+
+theorem lastIndexByte_eq_none (s : Bytes) (c : UInt8) (h : c ∉ s) : lastIndexByte s c = none := by
+  unfold lastIndexByte
+  rw [indexByte_eq_none _ _ (by simpa using h)]
+
+theorem lastIndexByte_append (a b : Bytes) (c : UInt8) (h : c ∉ b) :
+    lastIndexByte (a ++ c :: b) c = some a.length := by
+  unfold lastIndexByte
+  have e : (a ++ c :: b).reverse = b.reverse ++ c :: a.reverse := by simp
+  rw [e, indexByte_append _ _ _ (by simpa using h)]
+  simp only [List.length_append, List.length_cons, List.length_reverse]
+  congr 1
+  omega
+
+theorem last_occurrence (s : Bytes) (c : UInt8) (h : c ∈ s) : ∃ a b, s = a ++ c :: b ∧ c ∉ b := by
+  induction s with
+  | nil => cases h
+  | cons x t ih =>
+    by_cases ht : c ∈ t
+    · obtain ⟨a, b, e, hb⟩ := ih ht
+      exact ⟨x :: a, b, by rw [e]; rfl, hb⟩
+    · have : c = x := by
+        cases h with
+        | head => rfl
+        | tail _ h' => exact absurd h' ht
+      subst this
+      exact ⟨[], t, rfl, ht⟩
+
+theorem lastIndexByte_cases (s : Bytes) (c : UInt8) :
+    (c ∉ s ∧ lastIndexByte s c = none) ∨
+    (∃ a b, s = a ++ c :: b ∧ c ∉ b ∧ lastIndexByte s c = some a.length) := by
+  by_cases h : c ∈ s
+  · right
+    obtain ⟨a, b, e, hb⟩ := last_occurrence s c h
+    exact ⟨a, b, e, hb, by rw [e]; exact lastIndexByte_append a b c hb⟩
+  · left; exact ⟨h, lastIndexByte_eq_none s c h⟩
+
+/-! ## host = hostname [: port] -/
+
+theorem not_mem_of_all_digit (ds : Bytes) (h : ds.all isDigit = true) : (58 : UInt8) ∉ ds := by
+  intro hm
+  have := List.all_eq_true.1 h 58 hm
+  revert this; decide
+
+theorem validOptionalPort_cons (ds : Bytes) : validOptionalPort (58 :: ds) = ds.all isDigit := by
+  simp [validOptionalPort]
+
+theorem validOptionalPort_cases (opt : Bytes) (h : validOptionalPort opt = true) :
+    opt = [] ∨ ∃ ds, opt = 58 :: ds ∧ ds.all isDigit = true := by
+  cases opt with
+  | nil => exact Or.inl rfl
+  | cons c ds =>
+    simp only [validOptionalPort, Bool.and_eq_true, beq_iff_eq] at h
+    right; exact ⟨ds, by rw [h.1], h.2⟩
+
+/-- the port part of a host string -/
+def portOf (h : Bytes) : Bytes := (splitHostPort h).2
+
+/-- `hostWithoutPort` as a function of the host string -/
+def hwp (h : Bytes) : Bytes := if portOf h != [] then trimSuffix h (58 :: portOf h) else trimSuffix h [58]
+
+theorem port_eq (u : URL) : u.port = portOf u.host := rfl
+theorem hostWithoutPort_eq (u : URL) : hostWithoutPort u = hwp u.host := rfl
+
+theorem portOf_append (w ds : Bytes) (h : ds.all isDigit = true) : portOf (w ++ 58 :: ds) = ds := by
+  unfold portOf splitHostPort
+  rw [lastIndexByte_append w ds 58 (not_mem_of_all_digit ds h)]
+  simp [validOptionalPort_cons, h]
+
+theorem portOf_spec (h : Bytes) : (portOf h).all isDigit = true ∧ (portOf h ≠ [] → ∃ w, h = w ++ 58 :: portOf h) := by
+  rcases lastIndexByte_cases h 58 with ⟨_, e⟩ | ⟨a, b, e, hb, hl⟩
+  · have : portOf h = [] := by unfold portOf splitHostPort; rw [e]
+    rw [this]; exact ⟨rfl, fun hne => absurd rfl hne⟩
+  · cases hv : b.all isDigit with
+    | true =>
+      have : portOf h = b := by rw [e]; exact portOf_append a b hv
+      rw [this]; exact ⟨hv, fun _ => ⟨a, e⟩⟩
+    | false =>
+      have : portOf h = [] := by
+        unfold portOf splitHostPort
+        rw [hl]
+        subst e
+        simp [validOptionalPort_cons, hv]
+      rw [this]; exact ⟨rfl, fun hne => absurd rfl hne⟩
+
+/-- no suffix of `w` is an optional port -/
+def NoPortSuffix (w : Bytes) : Prop := ∀ a ds, w = a ++ 58 :: ds → ds.all isDigit = false
+
+theorem portOf_of_noPortSuffix (w : Bytes) (h : NoPortSuffix w) : portOf w = [] := by
+  rcases lastIndexByte_cases w 58 with ⟨_, e⟩ | ⟨a, b, e, hb, hl⟩
+  · unfold portOf splitHostPort; rw [e]
+  · have hv := h a b e
+    unfold portOf splitHostPort
+    rw [hl]
+    subst e
+    simp [validOptionalPort_cons, hv]
+
+theorem hwp_of_noPortSuffix (w : Bytes) (h : NoPortSuffix w) : hwp w = w := by
+  unfold hwp
+  rw [portOf_of_noPortSuffix w h]
+  simp only [bne_self_eq_false, Bool.false_eq_true, if_false]
+  apply trimSuffix_of_not
+  cases hs : hasSuffix w [58] with
+  | false => rfl
+  | true =>
+    obtain ⟨a, e⟩ := (hasSuffix_iff _ _).1 hs
+    have := h a [] e
+    simp at this
+
+/-- the port-less part of a well-formed host: no colon, or bracketed -/
+def GoodW (w : Bytes) : Prop := 58 ∉ w ∨ (hasPrefix w [91] = true ∧ w.getLast? = some 93)
+
+theorem noPortSuffix_of_goodW (w : Bytes) (h : GoodW w) : NoPortSuffix w := by
+  intro a ds e
+  rcases h with h | ⟨_, h⟩
+  · subst e; simp at h
+  · cases ds with
+    | nil => subst e; simp at h
+    | cons d ds' =>
+      subst e
+      have : (a ++ 58 :: d :: ds').getLast? = (d :: ds').getLast? := by
+        rw [show a ++ 58 :: d :: ds' = (a ++ [58]) ++ (d :: ds') by simp]
+        rw [List.getLast?_append, List.getLast?_eq_some_getLast (List.cons_ne_nil d ds')]
+        rfl
+      rw [this] at h
+      have hm : (93 : UInt8) ∈ d :: ds' := List.mem_of_getLast? h
+      cases hall : (d :: ds').all isDigit with
+      | false => rfl
+      | true =>
+        have := List.all_eq_true.1 hall 93 hm
+        revert this; decide
+
+theorem decomp_port (w opt : Bytes) (hw : GoodW w) (ho : validOptionalPort opt = true) :
+    portOf (w ++ opt) = opt.drop 1 ∧ hwp (w ++ opt) = w := by
+  rcases validOptionalPort_cases opt ho with e | ⟨ds, e, hd⟩
+  · subst e
+    simp only [List.append_nil, List.drop_nil]
+    exact ⟨portOf_of_noPortSuffix w (noPortSuffix_of_goodW w hw), hwp_of_noPortSuffix w (noPortSuffix_of_goodW w hw)⟩
+  · subst e
+    have hp := portOf_append w ds hd
+    refine ⟨by simpa using hp, ?_⟩
+    unfold hwp
+    rw [hp]
+    cases ds with
+    | nil => simp only [bne_self_eq_false, Bool.false_eq_true, if_false]; exact trimSuffix_append w [58]
+    | cons d ds' =>
+      have : ((d :: ds') != []) = true := by simp
+      simp only [this, if_true]
+      exact trimSuffix_append w (58 :: d :: ds')
+
+
+theorem portIsNumber : PortIsNumber := by
+  intro st _
+  exact (portOf_spec _).1
+
+/-- a host string splits into a port-less part and an optional port -/
+def Decomp (h w opt : Bytes) : Prop := h = w ++ opt ∧ GoodW w ∧ validOptionalPort opt = true
+
+/-- the invariant behind `HostIsHostnamePort` and `DefaultPortHidden` -/
+def HostInv (u : URL) : Prop :=
+  ∃ w opt, Decomp u.host w opt ∧ opt ≠ [58] ∧ ∀ n, atoi (opt.drop 1) = some n → isDefaultURLPort u.scheme n = false
+
+theorem hostInv_obs (u : URL) (h : HostInv u) :
+    u.host = hostWithoutPort u ++ (if u.port = [] then [] else 58 :: u.port) ∧
+    ∀ n, atoi u.port = some n → isDefaultURLPort u.scheme n = false := by
+  obtain ⟨w, opt, ⟨e, hw, ho⟩, hne, hd⟩ := h
+  have ⟨hp, hh⟩ := decomp_port w opt hw ho
+  rw [hostWithoutPort_eq, port_eq, e, hp, hh]
+  refine ⟨?_, hd⟩
+  rcases validOptionalPort_cases opt ho with e' | ⟨ds, e', _⟩
+  · subst e'; simp
+  · subst e'
+    cases ds with
+    | nil => exact absurd rfl hne
+    | cons d ds' => simp
+
+theorem sync_url_host (st : St) : st.sync.url.host = st.url.host ∧ st.sync.url.scheme = st.url.scheme := by
+  rcases sync_cases st with ⟨e, _⟩ | ⟨l, _, _, _, e⟩ <;> rw [e] <;> exact ⟨rfl, rfl⟩
+
+theorem hostInv_congr (u u' : URL) (hh : u'.host = u.host) (hs : u'.scheme = u.scheme) (h : HostInv u) : HostInv u' := by
+  unfold HostInv at *
+  rw [hh, hs]; exact h
+
+theorem last_not_colon (w d : Bytes) (x : UInt8) (hd : (x :: d).all isDigit = true) :
+    hasSuffix (w ++ 58 :: x :: d) [58] = false := by
+  cases hs : hasSuffix (w ++ 58 :: x :: d) [58] with
+  | false => rfl
+  | true =>
+    obtain ⟨a, e⟩ := (hasSuffix_iff _ _).1 hs
+    have h1 : (w ++ 58 :: x :: d).getLast? = some 58 := by rw [e]; simp
+    rw [show w ++ 58 :: x :: d = (w ++ [58]) ++ (x :: d) by simp, List.getLast?_append,
+      List.getLast?_eq_some_getLast (List.cons_ne_nil x d)] at h1
+    simp only [Option.some_or, Option.some.injEq] at h1
+    have hm : (58 : UInt8) ∈ x :: d := by rw [← h1]; exact List.getLast_mem _
+    exact absurd hm (not_mem_of_all_digit _ hd)
+
+theorem trim_decomp (w opt : Bytes) (hw : GoodW w) (ho : validOptionalPort opt = true) :
+    ∃ opt1, trimSuffix (w ++ opt) [58] = w ++ opt1 ∧ validOptionalPort opt1 = true ∧ opt1 ≠ [58] ∧
+      opt1.drop 1 = opt.drop 1 := by
+  rcases validOptionalPort_cases opt ho with e | ⟨ds, e, hd⟩
+  · subst e
+    refine ⟨[], ?_, rfl, by simp, rfl⟩
+    have := hwp_of_noPortSuffix w (noPortSuffix_of_goodW w hw)
+    unfold hwp at this
+    rw [portOf_of_noPortSuffix w (noPortSuffix_of_goodW w hw)] at this
+    simpa using this
+  · subst e
+    cases ds with
+    | nil => exact ⟨[], by rw [List.append_nil]; exact trimSuffix_append w [58], rfl, by simp, rfl⟩
+    | cons x d =>
+      refine ⟨58 :: x :: d, trimSuffix_of_not _ _ (last_not_colon w d x hd), ho, by simp, rfl⟩
+
+
+def lowerByte (c : UInt8) : UInt8 := if 65 ≤ c && c ≤ 90 then c + 32 else c
+
+theorem toLowerAscii_eq (s : Bytes) : toLowerAscii s = s.map lowerByte := rfl
+
+theorem lowerByte_facts_fin : ∀ n : Fin 256,
+    ((lowerByte (UInt8.ofNat n.val) == 58) == (UInt8.ofNat n.val == 58)) &&
+    (!isDigit (UInt8.ofNat n.val) || lowerByte (UInt8.ofNat n.val) == UInt8.ofNat n.val) = true := by decide +kernel
+
+theorem lowerByte_facts (c : UInt8) : (lowerByte c = 58 ↔ c = 58) ∧ (isDigit c = true → lowerByte c = c) := by
+  have h := lowerByte_facts_fin ⟨c.toNat, c.toNat_lt⟩
+  simp only [UInt8.ofNat_toNat, Bool.and_eq_true, Bool.or_eq_true, beq_iff_eq, Bool.not_eq_true'] at h
+  refine ⟨?_, fun hd => (of_decide_eq_true h.2).resolve_left (by simp [hd])⟩
+  have h1 := h.1
+  constructor
+  · intro e; simpa [e] using h1
+  · intro e; simpa [e] using h1
+
+theorem toLowerAscii_opt (opt : Bytes) (h : validOptionalPort opt = true) : toLowerAscii opt = opt := by
+  rcases validOptionalPort_cases opt h with e | ⟨ds, e, hd⟩
+  · subst e; rfl
+  · subst e
+    rw [toLowerAscii_eq, List.map_cons]
+    congr 1
+    rw [List.all_eq_true] at hd
+    conv => rhs; rw [← List.map_id ds]
+    apply List.map_congr_left
+    intro c hc
+    exact (lowerByte_facts c).2 (hd c hc)
+
+theorem goodW_toLower (w : Bytes) (h : GoodW w) : GoodW (toLowerAscii w) := by
+  rcases h with h | ⟨hp, hl⟩
+  · left
+    rw [toLowerAscii_eq]
+    intro hm
+    obtain ⟨c, hc, e⟩ := List.mem_map.1 hm
+    rw [(lowerByte_facts c).1] at e
+    subst e; exact h hc
+  · right
+    obtain ⟨t, e⟩ := (hasPrefix_iff _ _).1 hp
+    constructor
+    · rw [e, toLowerAscii_eq]
+      exact (hasPrefix_iff _ _).2 ⟨t.map lowerByte, by simp [lowerByte]⟩
+    · rw [toLowerAscii_eq, List.getLast?_map, hl]; rfl
+
+/-! ### `Idna.toASCII` does not introduce a colon -/
+
+theorem asciiChar_byte (c : Char) (h : c.toNat < 128) :
+    String.utf8EncodeChar c = [c.val.toUInt8] ∧ c.val.toUInt8.toNat = c.toNat := by
+  have hs : c.utf8Size = 1 := by
+    unfold Char.utf8Size
+    have : c.val.toNat ≤ 127 := by have : c.toNat = c.val.toNat := rfl; omega
+    have : c.val ≤ 127 := by rw [UInt32.le_iff_toNat_le]; simpa using this
+    simp [this]
+  have hn : c.val.toUInt8.toNat = c.toNat := by
+    have : c.toNat = c.val.toNat := rfl
+    rw [UInt32.toNat_toUInt8, ← this]; omega
+  exact ⟨String.utf8EncodeChar_eq_singleton hs, hn⟩
+
+theorem utf8Dec_bytes (l : Bytes) (cps : List Nat) (h : Idna.utf8Dec l = some cps) :
+    ∃ cs : List Char, cps = cs.map Char.toNat ∧ l = cs.flatMap String.utf8EncodeChar := by
+  unfold Idna.utf8Dec at h
+  cases hs : String.fromUTF8? ⟨l.toArray⟩ with
+  | none => rw [hs] at h; cases h
+  | some s =>
+    rw [hs] at h
+    simp only [Option.map_some, Option.some.injEq] at h
+    refine ⟨s.toList, h.symm, ?_⟩
+    have hb : s.toByteArray = ⟨l.toArray⟩ := by
+      unfold String.fromUTF8? at hs
+      split at hs
+      · cases hs; rfl
+      · cases hs
+    have := @String.utf8Encode_toList s
+    rw [hb] at this
+    have h2 := congrArg (fun b => b.data.toList) this
+    simp only [List.utf8Encode, List.toList_data_toByteArray] at h2
+    simpa using h2.symm
+
+theorem basic_no_colon (l : Bytes) (cps : List Nat) (h : Idna.utf8Dec l = some cps) (hl : (58 : UInt8) ∉ l) :
+    (58 : UInt8) ∉ (cps.filter (· < 128)).map Nat.toUInt8 := by
+  obtain ⟨cs, e1, e2⟩ := utf8Dec_bytes l cps h
+  intro hm
+  obtain ⟨n, hn, en⟩ := List.mem_map.1 hm
+  rw [List.mem_filter] at hn
+  obtain ⟨hn, hlt⟩ := hn
+  simp only [decide_eq_true_eq] at hlt
+  have hn58 : n = 58 := by
+    have := congrArg UInt8.toNat en
+    simp only [Nat.toUInt8, UInt8.toNat_ofNat'] at this
+    have h58 : (58 : UInt8).toNat = 58 := rfl
+    omega
+  subst hn58
+  rw [e1] at hn
+  obtain ⟨c, hc, ec⟩ := List.mem_map.1 hn
+  obtain ⟨hb, hv⟩ := asciiChar_byte c (by omega)
+  apply hl
+  rw [e2, List.mem_flatMap]
+  refine ⟨c, hc, ?_⟩
+  rw [hb]
+  have : c.val.toUInt8 = 58 := by
+    apply UInt8.toNat_inj.1
+    rw [hv, ec]; rfl
+  simp [this]
+
+theorem digit_ne_fin : ∀ d : Fin 36, Idna.digit d.val ≠ 58 := by decide
+
+theorem digit_ne (d : Nat) (h : d < 36) : Idna.digit d ≠ 58 := digit_ne_fin ⟨d, h⟩
+
+theorem encVar_nc : ∀ (f q k bias : Nat) (out : Bytes), (58 : UInt8) ∉ out → (58 : UInt8) ∉ Idna.encVar f q k bias out := by
+  intro f
+  induction f with
+  | zero => intro q k bias out h; simpa [Idna.encVar] using h
+  | succ f ih =>
+    intro q k bias out h
+    unfold Idna.encVar
+    simp only
+    generalize ht : (if k ≤ bias then 1 else if k ≥ bias + 26 then 26 else k - bias) = t
+    have htb : 1 ≤ t ∧ t ≤ 26 := by
+      subst ht
+      split
+      · omega
+      · split <;> omega
+    split
+    · next hq =>
+      intro hm
+      rw [List.mem_append] at hm
+      rcases hm with hm | hm
+      · exact h hm
+      · simp only [List.mem_singleton] at hm
+        exact digit_ne q (by omega) hm.symm
+    · apply ih
+      intro hm
+      rw [List.mem_append] at hm
+      rcases hm with hm | hm
+      · exact h hm
+      · simp only [List.mem_singleton] at hm
+        have : (q - t) % (36 - t) < 36 - t := Nat.mod_lt _ (by omega)
+        exact digit_ne _ (by omega) hm.symm
+
+theorem encInner_nc (b : Nat) (st : Idna.PSt) (r : Nat) (h : (58 : UInt8) ∉ st.out) :
+    (58 : UInt8) ∉ (Idna.encInner b st r).out := by
+  unfold Idna.encInner
+  split
+  · exact h
+  · split
+    · exact h
+    · exact encVar_nc _ _ _ _ _ h
+
+theorem foldl_encInner_nc (b : Nat) (s : List Nat) : ∀ st : Idna.PSt, (58 : UInt8) ∉ st.out →
+    (58 : UInt8) ∉ (s.foldl (Idna.encInner b) st).out := by
+  induction s with
+  | nil => intro st h; exact h
+  | cons r t ih => intro st h; exact ih _ (encInner_nc b st r h)
+
+theorem encOuter_nc (s : List Nat) (b : Nat) : ∀ (f : Nat) (st : Idna.PSt), (58 : UInt8) ∉ st.out →
+    (58 : UInt8) ∉ (Idna.encOuter s b f st).out := by
+  intro f
+  induction f with
+  | zero => intro st h; exact h
+  | succ f ih =>
+    intro st h
+    unfold Idna.encOuter
+    split
+    · exact h
+    · apply ih
+      exact foldl_encInner_nc b s _ h
+
+theorem punyEncode_nc (l : Bytes) (cps : List Nat) (h : Idna.utf8Dec l = some cps) (hl : (58 : UInt8) ∉ l) :
+    (58 : UInt8) ∉ Idna.punyEncode cps := by
+  unfold Idna.punyEncode
+  apply encOuter_nc
+  simp only
+  intro hm
+  rw [List.mem_append, List.mem_append] at hm
+  rcases hm with (hm | hm) | hm
+  · revert hm; decide
+  · exact basic_no_colon l cps h hl hm
+  · split at hm
+    · revert hm; decide
+    · cases hm
+
+theorem labelToASCII_nc (l a : Bytes) (h : Idna.labelToASCII l = .ok a) (hl : (58 : UInt8) ∉ l) : (58 : UInt8) ∉ a := by
+  unfold Idna.labelToASCII at h
+  split at h
+  · cases h
+  · split at h
+    · cases h; exact hl
+    · split at h
+      · cases h
+      · next cps hc =>
+        split at h
+        · cases h; exact punyEncode_nc l cps hc hl
+        · cases h
+
+theorem mem_splitOn (sep : UInt8) : ∀ (s l : Bytes), l ∈ splitOn sep s → ∀ x ∈ l, x ∈ s := by
+  intro s
+  induction s with
+  | nil => intro l hl x hx; simp [splitOn] at hl; subst hl; cases hx
+  | cons c cs ih =>
+    intro l hl x hx
+    unfold splitOn at hl
+    split at hl
+    · rcases List.mem_cons.1 hl with e | hl'
+      · subst e; cases hx
+      · exact List.mem_cons_of_mem _ (ih l hl' x hx)
+    · split at hl
+      · simp only [List.mem_singleton] at hl
+        subst hl; simp only [List.mem_singleton] at hx; subst hx; exact List.mem_cons_self
+      · next w ws hw =>
+        rcases List.mem_cons.1 hl with e | hl'
+        · subst e
+          rcases List.mem_cons.1 hx with e | hx'
+          · subst e; exact List.mem_cons_self
+          · exact List.mem_cons_of_mem _ (ih w (by rw [hw]; exact List.mem_cons_self) x hx')
+        · exact List.mem_cons_of_mem _ (ih l (by rw [hw]; exact List.mem_cons_of_mem _ hl') x hx)
+
+theorem mem_intercalate (sep : Bytes) (x : UInt8) : ∀ ls : List Bytes, x ∈ sep.intercalate ls →
+    x ∈ sep ∨ ∃ l ∈ ls, x ∈ l := by
+  intro ls
+  induction ls with
+  | nil => intro h; simp at h
+  | cons l t ih =>
+    intro h
+    cases t with
+    | nil => simp only [List.intercalate_singleton] at h; exact Or.inr ⟨l, by simp, h⟩
+    | cons l' t' =>
+      rw [List.intercalate_cons_cons, List.mem_append, List.mem_append] at h
+      rcases h with (h | h) | h
+      · exact Or.inr ⟨l, by simp, h⟩
+      · exact Or.inl h
+      · rcases ih h with h | ⟨m, hm, hx⟩
+        · exact Or.inl h
+        · exact Or.inr ⟨m, List.mem_cons_of_mem _ hm, hx⟩
+
+theorem go_nc (ch : Bytes) : ∀ (ls acc : List Bytes), (∀ l ∈ ls, (58 : UInt8) ∉ l) → (∀ a ∈ acc, (58 : UInt8) ∉ a) →
+    Idna.toASCII.go ls (some acc) = .ok ch → (58 : UInt8) ∉ ch := by
+  intro ls
+  induction ls with
+  | nil =>
+    intro acc _ hacc h
+    simp only [Idna.toASCII.go] at h
+    cases h
+    intro hm
+    rcases mem_intercalate _ _ _ hm with hm | ⟨l, hl, hx⟩
+    · revert hm; decide
+    · exact hacc l (by simpa using hl) hx
+  | cons l t ih =>
+    intro acc hls hacc h
+    simp only [Idna.toASCII.go] at h
+    split at h
+    · next a ha =>
+      apply ih (a :: acc) (fun m hm => hls m (List.mem_cons_of_mem _ hm)) ?_ h
+      intro m hm
+      rcases List.mem_cons.1 hm with e | hm'
+      · subst e; exact labelToASCII_nc l m ha (hls l List.mem_cons_self)
+      · exact hacc m hm'
+    · next r hr =>
+      rw [h] at hr
+      exact absurd rfl (hr ch)
+
+theorem toASCII_no_colon (w ch : Bytes) (h : Idna.toASCII w = .ok ch) (hw : (58 : UInt8) ∉ w) : (58 : UInt8) ∉ ch := by
+  unfold Idna.toASCII at h
+  simp only at h
+  refine go_nc ch _ [] ?_ (fun a ha => by cases ha) h
+  intro l hl hm
+  have := mem_splitOn 46 _ l hl 58 hm
+  obtain ⟨c, hc, e⟩ := List.mem_map.1 this
+  have : c = 58 := by
+    have := (lowerByte_facts c).1.1 (by unfold lowerByte; exact e)
+    exact this
+  subst this
+  exact hw hc
+
+theorem fixHost_decomp (scheme host h' w opt : Bytes) (hf : fixHost scheme host = .ok h')
+    (hd : Decomp host w opt) :
+    ∃ w' opt', Decomp h' w' opt' ∧ opt' ≠ [58] ∧ opt'.drop 1 = opt.drop 1 := by
+  obtain ⟨e, hw, ho⟩ := hd
+  obtain ⟨opt1, ht, ho1, hne1, hdrop⟩ := trim_decomp w opt hw ho
+  unfold fixHost at hf
+  rw [e, ht] at hf
+  simp only at hf
+  split at hf
+  · split at hf
+    · cases hf
+      refine ⟨toLowerAscii w, opt1, ⟨?_, goodW_toLower w hw, ho1⟩, hne1, hdrop⟩
+      rw [toLowerAscii_eq, List.map_append, ← toLowerAscii_eq, ← toLowerAscii_eq, toLowerAscii_opt opt1 ho1]
+    · cases hf
+  · next hnb =>
+    have keep : ∃ w' opt', Decomp (w ++ opt1) w' opt' ∧ opt' ≠ [58] ∧ opt'.drop 1 = opt.drop 1 :=
+      ⟨w, opt1, ⟨rfl, hw, ho1⟩, hne1, hdrop⟩
+    split at hf
+    · -- the IDNA branch
+      have hwc : (58 : UInt8) ∉ w := by
+        rcases hw with h | ⟨hp, _⟩
+        · exact h
+        · exfalso
+          obtain ⟨t, et⟩ := (hasPrefix_iff _ _).1 hp
+          apply hnb
+          exact (hasPrefix_iff _ _).2 ⟨t ++ opt1, by rw [et]; simp⟩
+      have hwp' : hasPrefix w [91] = false := by
+        cases hp : hasPrefix w [91] with
+        | false => rfl
+        | true =>
+          exfalso
+          obtain ⟨t, et⟩ := (hasPrefix_iff _ _).1 hp
+          apply hnb
+          exact (hasPrefix_iff _ _).2 ⟨t ++ opt1, by rw [et]; simp⟩
+      have hport : (splitHostPort (w ++ opt1)).2 = opt1.drop 1 := (decomp_port w opt1 hw ho1).1
+      have hname : (splitHostPort (w ++ opt1)).1 = w := by
+        rcases validOptionalPort_cases opt1 ho1 with e1 | ⟨ds, e1, hds⟩
+        · subst e1
+          unfold splitHostPort
+          rw [List.append_nil, lastIndexByte_eq_none w 58 hwc]
+          simp [hwp']
+        · subst e1
+          unfold splitHostPort
+          rw [lastIndexByte_append w ds 58 (not_mem_of_all_digit ds hds)]
+          simp [validOptionalPort_cons, hds, hwp']
+      rw [hport, hname] at hf
+      split at hf
+      · cases hf
+      · cases hf
+      · next ch hch =>
+        split at hf
+        · cases hf
+          refine ⟨ch, opt1, ⟨?_, Or.inl (toASCII_no_colon w ch hch hwc), ho1⟩, hne1, hdrop⟩
+          rcases validOptionalPort_cases opt1 ho1 with e1 | ⟨ds, e1, hds⟩
+          · subst e1; simp
+          · subst e1
+            cases ds with
+            | nil => exact absurd rfl hne1
+            | cons x d => simp
+        · cases hf; exact keep
+    · cases hf; exact keep
+
+
+theorem fixRawQuery_host (u : URL) : (fixRawQuery u).host = u.host ∧ (fixRawQuery u).scheme = u.scheme := by
+  unfold fixRawQuery; split <;> exact ⟨rfl, rfl⟩
+
+theorem fixURL_decomp (u u' : URL) (w opt : Bytes) (hf : fixURL u = .ok u') (hd : Decomp u.host w opt) :
+    ∃ w' opt', Decomp u'.host w' opt' ∧ opt' ≠ [58] ∧ opt'.drop 1 = opt.drop 1 ∧ u'.scheme = u.scheme := by
+  rw [fixURL_eq] at hf
+  split at hf
+  · cases hf
+  · next h' hh =>
+    cases hf
+    obtain ⟨w', opt', h1, h2, h3⟩ := fixHost_decomp _ _ _ w opt hh hd
+    exact ⟨w', opt', by rw [(fixRawQuery_host _).1]; exact h1, h2, h3, (fixRawQuery_host _).2⟩
+
+theorem fixURL_hostInv (u u' : URL) (w opt : Bytes) (hf : fixURL u = .ok u') (hd : Decomp u.host w opt)
+    (hp : ∀ n, atoi (opt.drop 1) = some n → isDefaultURLPort u.scheme n = false) : HostInv u' := by
+  obtain ⟨w', opt', h1, h2, h3, h4⟩ := fixURL_decomp u u' w opt hf hd
+  exact ⟨w', opt', h1, h2, by rw [h3, h4]; exact hp⟩
+
+theorem atoi_nil : atoi [] = none := rfl
+
+theorem clearURLPort_decomp (u : URL) (w opt : Bytes) (hd : Decomp u.host w opt) :
+    Decomp (clearURLPort u).host w [] ∧ (clearURLPort u).scheme = u.scheme := by
+  obtain ⟨e, hw, ho⟩ := hd
+  refine ⟨⟨?_, hw, rfl⟩, rfl⟩
+  show hostWithoutPort u = w ++ []
+  rw [hostWithoutPort_eq, e, (decomp_port w opt hw ho).2, List.append_nil]
+
+theorem normPort_decomp (u : URL) (w opt : Bytes) (hd : Decomp u.host w opt) :
+    ∃ opt', Decomp (normPort u).host w opt' ∧ (normPort u).scheme = u.scheme ∧
+      ∀ n, atoi (opt'.drop 1) = some n → isDefaultURLPort u.scheme n = false := by
+  have hp : u.port = opt.drop 1 := by rw [port_eq, hd.1]; exact (decomp_port w opt hd.2.1 hd.2.2).1
+  have hc := clearURLPort_decomp u w opt hd
+  have clear : ∃ opt', Decomp (clearURLPort u).host w opt' ∧ (clearURLPort u).scheme = u.scheme ∧
+      ∀ n, atoi (opt'.drop 1) = some n → isDefaultURLPort u.scheme n = false :=
+    ⟨[], hc.1, hc.2, fun n h => by cases h⟩
+  unfold normPort
+  split
+  · split
+    · exact clear
+    · next n hn =>
+      split
+      · exact clear
+      · next hdef =>
+        refine ⟨opt, hd, rfl, ?_⟩
+        intro m hm
+        rw [← hp, hn] at hm
+        cases hm
+        simpa using hdef
+  · next hnil =>
+    refine ⟨opt, hd, rfl, ?_⟩
+    intro m hm
+    simp only [bne_iff_ne, ne_eq, Decidable.not_not] at hnil
+    rw [← hp, hnil] at hm
+    cases hm
+
+theorem dropDefaultPort_hostInv (u : URL) (w opt : Bytes) (hd : Decomp u.host w opt) (hne : opt ≠ [58]) :
+    HostInv (dropDefaultPort u) := by
+  have hp : u.port = opt.drop 1 := by rw [port_eq, hd.1]; exact (decomp_port w opt hd.2.1 hd.2.2).1
+  have hc := clearURLPort_decomp u w opt hd
+  unfold dropDefaultPort
+  split
+  · next n hn =>
+    split
+    · exact ⟨w, [], hc.1, by simp, fun n h => by cases h⟩
+    · next hdef =>
+      refine ⟨w, opt, hd, hne, ?_⟩
+      intro m hm
+      rw [← hp, hn] at hm
+      cases hm
+      simpa using hdef
+  · next hn =>
+    refine ⟨w, opt, hd, hne, ?_⟩
+    intro m hm
+    rw [← hp, hn] at hm
+    cases hm
+
+
+/-- what `parseHost` guarantees for a bracketed host -/
+def PreB (host : Bytes) : Prop :=
+  hasPrefix host [91] = true → ∃ X opt, host = X ++ 93 :: opt ∧ validOptionalPort opt = true
+
+theorem preB_nil : PreB [] := by intro h; simp [hasPrefix] at h
+
+theorem hwp_decomp (host : Bytes) : ∃ opt, host = hwp host ++ opt ∧ validOptionalPort opt = true := by
+  unfold hwp
+  by_cases hp : portOf host = []
+  · rw [hp]
+    simp only [bne_self_eq_false, Bool.false_eq_true, if_false]
+    rcases trimSuffix_cases host [58] with ⟨_, e⟩ | ⟨_, e⟩
+    · exact ⟨[58], e, rfl⟩
+    · exact ⟨[], by rw [e]; simp, rfl⟩
+  · obtain ⟨hd, hx⟩ := portOf_spec host
+    obtain ⟨w0, e⟩ := hx hp
+    have : (portOf host != []) = true := by simpa using hp
+    simp only [this, if_true]
+    refine ⟨58 :: portOf host, ?_, by rw [validOptionalPort_cons]; exact hd⟩
+    generalize hpp : portOf host = p at *
+    subst e
+    rw [trimSuffix_append]
+
+theorem decomp_of_valid (u : URL) (hv : validHostColons u = true) (hb : PreB u.host) :
+    ∃ w opt, Decomp u.host w opt := by
+  cases hp : hasPrefix u.host [91] with
+  | true =>
+    obtain ⟨X, opt, e, ho⟩ := hb hp
+    refine ⟨X ++ [93], opt, by rw [e]; simp, Or.inr ⟨?_, by simp⟩, ho⟩
+    obtain ⟨t, et⟩ := (hasPrefix_iff _ _).1 hp
+    rw [e] at et
+    cases X with
+    | nil => simp at et
+    | cons x X' =>
+      simp only [List.cons_append, List.cons.injEq] at et
+      exact (hasPrefix_iff _ _).2 ⟨X' ++ [93], by rw [et.1]; rfl⟩
+  | false =>
+    obtain ⟨opt, e, ho⟩ := hwp_decomp u.host
+    refine ⟨hwp u.host, opt, e, Or.inl ?_, ho⟩
+    unfold validHostColons at hv
+    rw [hostWithoutPort_eq] at hv
+    simp only [Bool.or_eq_true, Bool.not_eq_true', List.contains_eq_mem, decide_eq_false_iff_not] at hv
+    rcases hv with hv | hv
+    · exfalso
+      obtain ⟨t, et⟩ := (hasPrefix_iff _ _).1 hv
+      have : hasPrefix u.host [91] = true := (hasPrefix_iff _ _).2 ⟨t ++ opt, by rw [e, et]; simp⟩
+      rw [hp] at this; cases this
+    · exact hv
+
+theorem normalizeURL_hostInv (u u' : URL) (h : normalizeURL u = .ok u')
+    (hpre : PreB u.host ∨ ∃ w opt, Decomp u.host w opt) : HostInv u' := by
+  obtain ⟨hv, hf⟩ := normalizeURL_ok u u' h
+  have : ∃ w opt, Decomp u.host w opt := by
+    rcases hpre with hb | hd
+    · exact decomp_of_valid u hv hb
+    · exact hd
+  obtain ⟨w, opt, hd⟩ := this
+  obtain ⟨opt', hd', hs, hp⟩ := normPort_decomp u w opt hd
+  exact fixURL_hostInv _ _ w opt' hf hd' (by rw [hs]; exact hp)
+
+theorem hostInv_decomp (u : URL) (h : HostInv u) : ∃ w opt, Decomp u.host w opt := by
+  obtain ⟨w, opt, hd, _⟩ := h; exact ⟨w, opt, hd⟩
+
+theorem validHost_ok (scheme host : Bytes) (h : validHost scheme host = .ok true) :
+    ∃ p, ParseRequestURI (scheme ++ [58, 47, 47] ++ host) = some p ∧ p.host = host ∧ validHostColons p = true := by
+  unfold validHost at h
+  split at h
+  · cases h
+  · next p hp =>
+    refine ⟨p, hp, ?_⟩
+    split at h
+    · cases h
+    · next hc =>
+      split at h
+      · cases h
+      · next hv =>
+        simp only [Bool.or_eq_true, bne_iff_ne, ne_eq, not_or, Decidable.not_not] at hc
+        simp only [Bool.not_eq_true', Bool.not_eq_false] at hv
+        exact ⟨hc.1.1.1.1, hv⟩
+
+
+theorem byteArray_toList_loop (bs : ByteArray) (i : Nat) (r : List UInt8) :
+    ByteArray.toList.loop bs i r = r.reverse ++ bs.data.toList.drop i := by
+  fun_induction ByteArray.toList.loop bs i r with
+  | case1 i r h ih =>
+    rw [ih]
+    have hi : i < bs.data.toList.length := by simpa using h
+    rw [List.drop_eq_getElem_cons hi]
+    have : bs.get! i = bs.data.toList[i] := by
+      cases bs with | mk d =>
+      simp only [ByteArray.get!]
+      have : i < d.size := by simpa using hi
+      simp [this]
+    simp [this]
+  | case2 i r h =>
+    have : bs.data.toList.length ≤ i := by
+      have h2 : bs.size = bs.data.toList.length := by
+        cases bs with | mk d => simp only [ByteArray.size, Array.length_toList]
+      omega
+    simp [List.drop_of_length_le this]
+
+theorem byteArray_toList (bs : ByteArray) : bs.toList = bs.data.toList := by
+  simp [ByteArray.toList, byteArray_toList_loop]
+
+/-- the bytes of a string, character by character -/
+theorem utf8_bytes (cs : List Char) :
+    (String.ofList cs).toUTF8.toList = cs.flatMap String.utf8EncodeChar := by
+  simp [byteArray_toList, List.utf8Encode]
+
+theorem digitChar_byte (c : Char) (h : c.isDigit = true) :
+    String.utf8EncodeChar c = [c.val.toUInt8] ∧ isDigit c.val.toUInt8 = true ∧
+    c.val.toUInt8.toNat - 48 = c.toNat - '0'.toNat := by
+  have hd := Char.isDigit_iff_toNat.1 h
+  simp only [Char.reduceToNat] at hd
+  have hs : c.utf8Size = 1 := by
+    unfold Char.utf8Size
+    have : c.val.toNat ≤ 127 := by have : c.toNat = c.val.toNat := rfl; omega
+    have : c.val ≤ 127 := by rw [UInt32.le_iff_toNat_le]; simpa using this
+    simp [this]
+  have hn : c.val.toUInt8.toNat = c.toNat := by
+    have : c.toNat = c.val.toNat := rfl
+    rw [UInt32.toNat_toUInt8, ← this]; omega
+  refine ⟨String.utf8EncodeChar_eq_singleton hs, ?_, by rw [hn]; rfl⟩
+  unfold isDigit
+  simp only [Bool.and_eq_true, decide_eq_true_eq, UInt8.le_iff_toNat_le, hn]
+  exact hd
+
+theorem digits_bytes (cs : List Char) (h : ∀ c ∈ cs, c.isDigit = true) (init : Nat) :
+    (cs.flatMap String.utf8EncodeChar).all isDigit = true ∧
+    (cs.flatMap String.utf8EncodeChar).foldl (fun n c => n * 10 + (c.toNat - 48)) init = Nat.ofDigitChars 10 cs init := by
+  induction cs generalizing init with
+  | nil => exact ⟨rfl, rfl⟩
+  | cons c t ih =>
+    obtain ⟨h1, h2, h3⟩ := digitChar_byte c (h c (by simp))
+    have iht := fun i => ih (fun x hx => h x (by simp [hx])) i
+    rw [List.flatMap_cons, h1]
+    constructor
+    · simp only [List.singleton_append, List.all_cons, h2, Bool.true_and]
+      exact (iht 0).1
+    · simp only [List.singleton_append, List.foldl_cons]
+      rw [(iht _).2, Nat.ofDigitChars_cons, h3, Nat.mul_comm]
+
+theorem itoa_spec (n : Nat) : (itoa n).all isDigit = true ∧ itoa n ≠ [] ∧ natOfDigits (itoa n) = n := by
+  have e : itoa n = (Nat.toDigits 10 n).flatMap String.utf8EncodeChar := by
+    unfold itoa bytesOf
+    rw [Nat.toString_eq_ofList_toDigits, utf8_bytes]
+  have hd : ∀ c ∈ Nat.toDigits 10 n, c.isDigit = true :=
+    fun c hc => Nat.isDigit_of_mem_toDigits (by decide) (by decide) hc
+  obtain ⟨h1, h2⟩ := digits_bytes _ hd 0
+  rw [e]
+  refine ⟨h1, ?_, ?_⟩
+  · have hne : Nat.toDigits 10 n ≠ [] := Nat.toDigits_ne_nil
+    cases hl : Nat.toDigits 10 n with
+    | nil => exact absurd hl hne
+    | cons c t =>
+      rw [List.flatMap_cons]
+      have := @String.utf8EncodeChar_ne_nil c
+      intro h0
+      exact this (List.append_eq_nil_iff.1 h0).1
+  · unfold natOfDigits
+    rw [h2, Nat.ofDigitChars_ten_toDigits]
+
+def plusByte (m : Mode) (c : UInt8) : UInt8 := if c = 43 then (if m == .queryComponent then 32 else 43) else c
+
+theorem raw_cons_ne (m : Mode) (c : UInt8) (rest : Bytes) (h : c ≠ 37) :
+    unescapeRaw m (c :: rest) = plusByte m c :: unescapeRaw m rest := by
+  rw [unescapeRaw.eq_def]
+  unfold plusByte
+  split <;> simp_all
+
+theorem ok_cons_ne (m : Mode) (c : UInt8) (rest : Bytes) (h : c ≠ 37) (hok : unescapeOk m (c :: rest) = true) :
+    unescapeOk m rest = true := by
+  rw [unescapeOk.eq_def] at hok
+  split at hok <;> simp_all
+
+theorem raw_pct (m : Mode) (x y : UInt8) (rest : Bytes) :
+    unescapeRaw m (37 :: x :: y :: rest) = (unhex x <<< 4 ||| unhex y) :: unescapeRaw m rest := by
+  rw [unescapeRaw]
+
+theorem ok_pct (m : Mode) (x y : UInt8) (rest : Bytes) (hok : unescapeOk m (37 :: x :: y :: rest) = true) :
+    isHex x = true ∧ isHex y = true ∧ unescapeOk m rest = true ∧
+    (m = .host → (unhex x < 8 && !(x == 50 && y == 53)) = false) := by
+  rw [unescapeOk] at hok
+  split at hok
+  · cases hok
+  · next h1 =>
+    split at hok
+    · cases hok
+    · next h2 =>
+      split at hok
+      · cases hok
+      · simp only [Bool.not_eq_true', Bool.and_eq_false_iff, not_or, Bool.not_eq_false] at h1
+        refine ⟨by simpa using h1.1, by simpa using h1.2, hok, ?_⟩
+        intro hm; subst hm
+        simpa using h2
+
+theorem ok_pct_short1 (m : Mode) : unescapeOk m [37] = false := by
+  rw [unescapeOk.eq_def]; simp
+
+theorem ok_pct_short2 (m : Mode) (x : UInt8) : unescapeOk m [37, x] = false := by
+  rw [unescapeOk.eq_def]; simp
+
+
+theorem raw_append_aux (m : Mode) (b : UInt8) (B : Bytes) (hb : isHex b = false) :
+    ∀ (n : Nat) (A : Bytes), A.length ≤ n → unescapeOk m (A ++ b :: B) = true →
+      unescapeRaw m (A ++ b :: B) = unescapeRaw m A ++ unescapeRaw m (b :: B) := by
+  intro n
+  induction n with
+  | zero =>
+    intro A hA _
+    have : A = [] := List.eq_nil_of_length_eq_zero (by omega)
+    subst this; simp [unescapeRaw]
+  | succ n ih =>
+    intro A hA hok
+    cases A with
+    | nil => simp [unescapeRaw]
+    | cons c A' =>
+      by_cases hc : c = 37
+      · subst hc
+        cases A' with
+        | nil =>
+          exfalso
+          cases B with
+          | nil => simp [ok_pct_short2] at hok
+          | cons y B' =>
+            have := (ok_pct m b y B' hok).1
+            rw [hb] at this; cases this
+        | cons x A'' =>
+          cases A'' with
+          | nil =>
+            exfalso
+            have := (ok_pct m x b B hok).2.1
+            rw [hb] at this; cases this
+          | cons y A3 =>
+            simp only [List.cons_append] at hok ⊢
+            rw [raw_pct, raw_pct, ih A3 (by simp at hA; omega) (ok_pct m x y _ hok).2.2.1]
+            rfl
+      · simp only [List.cons_append] at hok ⊢
+        rw [raw_cons_ne m c _ hc, raw_cons_ne m c _ hc, ih A' (by simp at hA; omega) (ok_cons_ne m c _ hc hok)]
+        rfl
+
+theorem raw_append (m : Mode) (A : Bytes) (b : UInt8) (B : Bytes) (hb : isHex b = false)
+    (hok : unescapeOk m (A ++ b :: B) = true) :
+    unescapeRaw m (A ++ b :: B) = unescapeRaw m A ++ unescapeRaw m (b :: B) :=
+  raw_append_aux m b B hb A.length A (Nat.le_refl _) hok
+
+theorem raw_host_plain (s : Bytes) (h : (37 : UInt8) ∉ s) : unescapeRaw .host s = s := by
+  induction s with
+  | nil => simp [unescapeRaw]
+  | cons c t ih =>
+    have hc : c ≠ 37 := by intro e; subst e; simp at h
+    rw [raw_cons_ne _ c t hc, ih (by intro hm; exact h (List.mem_cons_of_mem _ hm))]
+    unfold plusByte
+    split
+    · next e => subst e; rfl
+    · rfl
+
+theorem unhex_le_fin : ∀ n : Fin 256, unhex (UInt8.ofNat n.val) ≤ 15 := by decide +kernel
+
+theorem unhex_le (c : UInt8) : unhex c ≤ 15 := by
+  have h := unhex_le_fin ⟨c.toNat, c.toNat_lt⟩
+  simpa [UInt8.ofNat_toNat] using h
+
+theorem nibble_fin : ∀ hi : Fin 16, ∀ lo : Fin 256,
+    (decide (8 ≤ hi.val) && (UInt8.ofNat hi.val <<< 4 ||| UInt8.ofNat lo.val) == 91) = false := by decide +kernel
+
+theorem nibble_ne (hi lo : UInt8) (h1 : hi ≤ 15) (h2 : 8 ≤ hi) : (hi <<< 4 ||| lo) ≠ 91 := by
+  have hlt : hi.toNat < 16 := by rw [UInt8.le_iff_toNat_le] at h1; simpa using Nat.lt_succ_of_le h1
+  have h := nibble_fin ⟨hi.toNat, hlt⟩ ⟨lo.toNat, lo.toNat_lt⟩
+  simp only [UInt8.ofNat_toNat, Bool.and_eq_false_iff, decide_eq_false_iff_not, beq_eq_false_iff_ne] at h
+  rcases h with h | h
+  · exfalso; apply h; rw [UInt8.le_iff_toNat_le] at h2; simpa using h2
+  · exact h
+
+theorem hasPrefix_cons1 (c : UInt8) (t : Bytes) (x : UInt8) : hasPrefix (c :: t) [x] = (x == c) := by
+  simp [hasPrefix, List.isPrefixOf]
+
+theorem raw_host_first (a : Bytes) (hp : hasPrefix a [91] = false) (hok : unescapeOk .host a = true) :
+    hasPrefix (unescapeRaw .host a) [91] = false := by
+  cases a with
+  | nil => simp [unescapeRaw, hasPrefix]
+  | cons c t =>
+    by_cases hc : c = 37
+    · subst hc
+      cases t with
+      | nil => simp [ok_pct_short1] at hok
+      | cons x t' =>
+        cases t' with
+        | nil => simp [ok_pct_short2] at hok
+        | cons y t'' =>
+          rw [raw_pct]
+          have h4 := (ok_pct _ x y t'' hok).2.2.2 rfl
+          have hne : (unhex x <<< 4 ||| unhex y) ≠ 91 := by
+            by_cases hlt : unhex x < 8
+            · have h5 : (x == 50 && y == 53) = true := by simpa [hlt] using h4
+              simp only [Bool.and_eq_true, beq_iff_eq] at h5
+              obtain ⟨hx, hy⟩ := h5
+              subst hx; subst hy; decide
+            · exact nibble_ne _ _ (unhex_le x) (by simpa [UInt8.not_lt] using hlt)
+          rw [hasPrefix_cons1]
+          simpa using hne.symm
+    · rw [raw_cons_ne _ c t hc]
+      rw [hasPrefix_cons1] at hp
+      rw [hasPrefix_cons1]
+      unfold plusByte
+      split
+      · next e => subst e; rfl
+      · exact hp
+
+
+theorem unescape_some (m : Mode) (s r : Bytes) (h : Net.unescape m s = some r) :
+    unescapeOk m s = true ∧ r = unescapeRaw m s := by
+  unfold Net.unescape at h
+  split at h
+  · next hok => cases h; exact ⟨hok, rfl⟩
+  · cases h
+
+theorem opt_no_percent (opt : Bytes) (h : validOptionalPort opt = true) : (37 : UInt8) ∉ 93 :: opt := by
+  rcases validOptionalPort_cases opt h with e | ⟨ds, e, hd⟩
+  · subst e; decide
+  · subst e
+    intro hm
+    simp only [List.mem_cons] at hm
+    rcases hm with hm | hm | hm
+    · revert hm; decide
+    · revert hm; decide
+    · have := List.all_eq_true.1 hd 37 hm
+      revert this; decide
+
+theorem parseHost_preB (a r : Bytes) (h : parseHost a = some r) : PreB r := by
+  unfold parseHost at h
+  split at h
+  · next hpre =>
+    rcases lastIndexByte_cases a 93 with ⟨_, e⟩ | ⟨A, opt, ea, _, e⟩
+    · rw [e] at h; cases h
+    · rw [e] at h
+      simp only at h
+      have hdrop : a.drop (A.length + 1) = opt := by rw [ea]; simp
+      have hdrop' : a.drop A.length = 93 :: opt := by rw [ea]; simp
+      rw [hdrop, hdrop'] at h
+      split at h
+      · cases h
+      · next hv =>
+        simp only [Bool.not_eq_true', Bool.not_eq_false] at hv
+        have hv : validOptionalPort opt = true := by simpa using hv
+        have h3 : unescapeRaw .host (93 :: opt) = 93 :: opt := raw_host_plain _ (opt_no_percent opt hv)
+        split at h
+        · split at h
+          · next h1 h2 h3' hu1 hu2 hu3 =>
+            cases h
+            have := (unescape_some _ _ _ hu3).2
+            rw [h3] at this
+            subst this
+            intro _
+            exact ⟨h1 ++ h2, opt, by simp, hv⟩
+          · cases h
+        · obtain ⟨hok, hr⟩ := unescape_some _ _ _ h
+          subst hr
+          intro _
+          rw [ea] at hok ⊢
+          rw [raw_append .host A 93 opt (by decide) hok, h3]
+          exact ⟨_, opt, rfl, hv⟩
+  · next hpre =>
+    have hpre : hasPrefix a [91] = false := by simpa using hpre
+    have key : ∀ r, Net.unescape .host a = some r → PreB r := by
+      intro r hr
+      obtain ⟨hok, e⟩ := unescape_some _ _ _ hr
+      subst e
+      intro hp
+      rw [raw_host_first a hpre hok] at hp
+      cases hp
+    split at h
+    · split at h
+      · cases h
+      · exact key r h
+    · exact key r h
+
+theorem parseAuthority_preB (a : Bytes) (u : Option User) (hst : Bytes)
+    (h : parseAuthority a = some (u, hst)) : PreB hst := by
+  unfold parseAuthority at h
+  split at h
+  · cases hp : parseHost a with
+    | none => rw [hp] at h; cases h
+    | some r =>
+      rw [hp] at h
+      simp only [Option.map_some, Option.some.injEq, Prod.mk.injEq] at h
+      rw [← h.2]; exact parseHost_preB a r hp
+  · split at h
+    · cases h
+    · next host hp =>
+      have hb := parseHost_preB _ _ hp
+      simp only at h
+      split at h
+      · cases h
+      · split at h
+        · cases hu : Net.unescape Mode.userPassword (List.take _ a) with
+          | none => rw [hu] at h; cases h
+          | some x =>
+            rw [hu] at h
+            simp only [Option.map_some, Option.some.injEq, Prod.mk.injEq] at h
+            rw [← h.2]; exact hb
+        · split at h
+          · simp only [Option.some.injEq, Prod.mk.injEq] at h
+            rw [← h.2]; exact hb
+          · cases h
+
+
+theorem setPath_preB (u u' : URL) (p : Bytes) (h : setPath u p = some u') (hb : PreB u.host) : PreB u'.host := by
+  unfold setPath at h
+  split at h
+  · cases h
+  · cases h; exact hb
+
+theorem parse_preB (raw : Bytes) (v : Bool) (u : URL) (h : Net.parse raw v = some u) : PreB u.host := by
+  unfold Net.parse at h
+  split at h
+  · cases h
+  split at h
+  · cases h
+  split at h
+  · cases h; exact preB_nil
+  split at h
+  · cases h
+  · simp only at h
+    split at h
+    all_goals (
+      simp only at h
+      split at h
+      · cases h; exact preB_nil
+      split at h
+      · cases h
+      split at h
+      · cases h
+      split at h
+      · split at h
+        · cases h
+        · next user host ha => exact setPath_preB _ _ _ h (parseAuthority_preB _ _ _ ha)
+      · exact setPath_preB _ _ _ h preB_nil)
+
+theorem ParseRequestURI_preB (raw : Bytes) (p : URL) (h : ParseRequestURI raw = some p) : PreB p.host :=
+  parse_preB raw true p h
+
+theorem Parse_preB (raw : Bytes) (p : URL) (h : Net.Parse raw = some p) : PreB p.host := by
+  unfold Net.Parse at h
+  split at h
+  split at h
+  · cases h
+  · next url hu =>
+    have hb := parse_preB _ _ _ hu
+    split at h
+    · cases h; exact hb
+    · unfold setFragment at h
+      split at h
+      · cases h
+      · cases h; exact hb
+
+theorem atoi_some (s : Bytes) (n : Nat) (h : atoi s = some n) : n = natOfDigits s := by
+  unfold atoi at h
+  split at h
+  · cases h
+  · simp only at h
+    split at h
+    · cases h
+    · cases h; rfl
+
+theorem setURLPort_hostInv (u : URL) (v : PortArg) (h : HostInv u) : HostInv (setURLPort u v) := by
+  obtain ⟨w, opt, hd, hne, hp⟩ := h
+  have hc := clearURLPort_decomp u w opt hd
+  have clear : HostInv (clearURLPort u) := ⟨w, [], hc.1, by simp, fun n h => by cases h⟩
+  have same : HostInv u := ⟨w, opt, hd, hne, hp⟩
+  unfold setURLPort
+  split
+  · exact same
+  · split
+    next portNum empty _ =>
+    split
+    · exact clear
+    · split
+      · exact same
+      · split
+        · exact clear
+        · next hdef =>
+          obtain ⟨h1, h2, h3⟩ := itoa_spec portNum.toNat
+          have hh : hostWithoutPort u = w := by
+            rw [hostWithoutPort_eq, hd.1]; exact (decomp_port w opt hd.2.1 hd.2.2).2
+          refine ⟨w, 58 :: itoa portNum.toNat, ⟨by simp only [hh], hd.2.1, by rw [validOptionalPort_cons]; exact h1⟩,
+            by simpa using h2, ?_⟩
+          intro m hm
+          simp only [List.drop_succ_cons, List.drop_zero] at hm
+          have := atoi_some _ _ hm
+          rw [h3] at this
+          subst this
+          simpa using hdef
+
+theorem hostInv_step (st st' : St) (op : Op) (hi : HostInv st.url) (h : step st op = .ok st') : HostInv st'.url := by
+  cases op with
+  | set p v =>
+    cases p with
+    | href =>
+      simp only [step, bind, Except.bind, pure, Except.pure] at h
+      generalize hp : parseURL v true = r at h
+      cases r with
+      | error e => cases h
+      | ok u =>
+        simp only [Except.ok.injEq] at h
+        subst h
+        have hu : HostInv u := by
+          unfold parseURL at hp
+          split at hp
+          · cases hp
+          · next p hpp =>
+            split at hp
+            · cases hp
+            · exact normalizeURL_hostInv _ _ hp (Or.inl (Parse_preB _ _ hpp))
+        unfold St.refreshParams
+        split <;> exact hu
+    | protocol =>
+      rcases step_protocol st st' v h with e | ⟨s, u, hf, e⟩
+      · rw [e]; exact hi
+      · subst e
+        obtain ⟨w, opt, hd⟩ := hostInv_decomp _ hi
+        obtain ⟨w', opt', h1, h2, _, _⟩ := fixURL_decomp _ u w opt hf hd
+        exact dropDefaultPort_hostInv u w' opt' h1 h2
+    | host =>
+      rcases step_host st st' v h with e | ⟨hv, u, hf, e⟩
+      · rw [e]; exact hi
+      · subst e
+        obtain ⟨p, hp, hph, hvc⟩ := validHost_ok _ _ hv
+        obtain ⟨w, opt, hd⟩ := decomp_of_valid p hvc (ParseRequestURI_preB _ _ hp)
+        rw [hph] at hd
+        obtain ⟨w', opt', h1, h2, _, _⟩ := fixURL_decomp _ u w opt hf hd
+        exact dropDefaultPort_hostInv u w' opt' h1 h2
+    | hostname =>
+      rcases step_hostname st st' v h with e | ⟨hc, _, u, hf, e⟩
+      · rw [e]; exact hi
+      · subst e
+        obtain ⟨w, opt, hd, hne, hp⟩ := hi
+        have hport : st.url.port = opt.drop 1 := by
+          rw [port_eq, hd.1]; exact (decomp_port w opt hd.2.1 hd.2.2).1
+        have hgw : GoodW v := Or.inl (by simpa using hc)
+        by_cases hpn : st.url.port = []
+        · refine fixURL_hostInv _ u v [] hf ⟨by simp [hpn], hgw, rfl⟩ (fun n hn => by cases hn)
+        · have hdig : st.url.port.all isDigit = true := (portOf_spec _).1
+          refine fixURL_hostInv _ u v (58 :: st.url.port) hf
+            ⟨by simp [hpn], hgw, by rw [validOptionalPort_cons]; exact hdig⟩ ?_
+          intro n hn
+          simp only [List.drop_succ_cons, List.drop_zero] at hn
+          rw [hport] at hn
+          exact hp n hn
+    | search =>
+      simp only [step, pure, Except.pure, Except.ok.injEq] at h
+      subst h
+      have : HostInv (fixRawQuery { st.url with rawQuery := trimPrefix v [63] }) :=
+        hostInv_congr st.url _ (fixRawQuery_host _).1 (fixRawQuery_host _).2 hi
+      unfold St.refreshParams
+      split <;> exact this
+    | port =>
+      simp only [step, pure, Except.pure, Except.ok.injEq] at h
+      subst h
+      exact setURLPort_hostInv _ _ hi
+    | username | password | pathname | hash =>
+      simp only [step, pure, Except.pure, Except.ok.injEq] at h
+      subst h
+      exact hostInv_congr st.url _ rfl rfl hi
+  | setPort v =>
+    simp only [step, pure, Except.pure, Except.ok.injEq] at h
+    subst h
+    exact setURLPort_hostInv _ _ hi
+  | getSP =>
+    simp only [step, pure, Except.pure] at h
+    split at h <;> cases h <;> exact hi
+  | spAppend k v | spDelete k v | spSet k v | spSort =>
+    simp only [step, pure, Except.pure, Except.ok.injEq] at h
+    subst h
+    unfold St.markUpdated
+    split <;> exact hostInv_congr st.url _ rfl rfl hi
+
+
+theorem setPath_host (u u' : URL) (p : Bytes) (h : setPath u p = some u') : u'.host = u.host := by
+  unfold setPath at h
+  split at h
+  · cases h
+  · cases h; rfl
+
+theorem setPath_getD_host (u : URL) (p : Bytes) : ((setPath u p).getD u).host = u.host := by
+  cases h : setPath u p with
+  | none => rfl
+  | some u' => exact setPath_host u u' p h
+
+theorem resolveReference_host (u ref : URL) :
+    (resolveReference u ref).host = ref.host ∨ (resolveReference u ref).host = [] ∨
+    (resolveReference u ref).host = u.host := by
+  unfold resolveReference
+  simp only
+  split
+  · left
+    rw [setPath_getD_host]
+    split <;> rfl
+  · split
+    · right; left; rfl
+    · split
+      · right; left; rfl
+      · right; right
+        rw [setPath_getD_host]
+
+theorem parseURL_hostInv (s : Bytes) (b : Bool) (u : URL) (hp : parseURL s b = .ok u) : HostInv u := by
+  unfold parseURL at hp
+  split at hp
+  · cases hp
+  · next p hpp =>
+    split at hp
+    · cases hp
+    · exact normalizeURL_hostInv _ _ hp (Or.inl (Parse_preB _ _ hpp))
+
+theorem construct_hostInv (s : Bytes) (base : Option Bytes) (u : URL) (h : construct s base = .ok u) : HostInv u := by
+  unfold construct at h
+  split at h
+  · exact parseURL_hostInv _ _ _ h
+  · simp only [bind, Except.bind] at h
+    split at h
+    · cases h
+    · next baseU hb =>
+      split at h
+      · cases h
+      · next ref hr =>
+        split at h
+        · exact parseURL_hostInv _ _ _ h
+        · refine normalizeURL_hostInv _ _ h ?_
+          show PreB (resolveReference baseU ref).host ∨ ∃ w opt, Decomp (resolveReference baseU ref).host w opt
+          rcases resolveReference_host baseU ref with e | e | e
+          · rw [e]; exact Or.inl (Parse_preB _ _ hr)
+          · rw [e]; exact Or.inl preB_nil
+          · rw [e]; exact Or.inr (hostInv_decomp _ (parseURL_hostInv _ _ _ hb))
+
+theorem hostInv_reach (st : St) (h : Reach st) : HostInv st.url := by
+  induction h with
+  | ctor s base u hc => exact construct_hostInv s base u hc
+  | step st st' op _ hs ih => exact hostInv_step st st' op ih hs
+  | read st _ ih => exact hostInv_congr st.url _ (sync_url_host st).1 (sync_url_host st).2 ih
+
+theorem hostIsHostnamePort : HostIsHostnamePort := by
+  intro st hr
+  have hi : HostInv st.sync.url :=
+    hostInv_congr st.url _ (sync_url_host st).1 (sync_url_host st).2 (hostInv_reach st hr)
+  exact (hostInv_obs _ hi).1
+
+theorem defaultPortHidden : DefaultPortHidden := by
+  intro st hr n hn
+  have hi : HostInv st.sync.url :=
+    hostInv_congr st.url _ (sync_url_host st).1 (sync_url_host st).2 (hostInv_reach st hr)
+  have := (hostInv_obs _ hi).2 n hn
+  rw [(sync_url_host st).2] at this
+  exact this
+
 end GN.Url.Obj
